@@ -241,7 +241,7 @@ class Model:
         tv = self.elements[i].time_variables
         if var not in tv:
             return None
-        return [x if isinstance(x, (int, float)) else si.q_si(x) for x in tv[var]]
+        return [x if (x is None or isinstance(x, (int, float))) else si.q_si(x) for x in tv[var]]
 
     def times(self):
         return [si.q_si(t) for t in self.pt.time]
@@ -325,8 +325,12 @@ def run_schedule(spec, schedule, names=None):
                 break
         elif op[0] == 'reset':
             info['segments'].append((m.observe(), list(info['dts']), dict(info['starts'])))
-            m.pt.reset()
-            m.apply_init()
+            try:
+                m.pt.reset()
+                m.apply_init()
+            except Exception as e:
+                info['error'] = (type(e).__name__, 'reset: ' + str(e)[:200], len(info['runs']))
+                break
             info['dts'], info['starts'] = [], {}
             locked_carry = op[1] if len(op) > 1 else None   # unknown unless told
         elif op[0] == 'newsolver':
